@@ -943,11 +943,13 @@ func (p *termProfile) checkEvictionTask(t *Task) {
 				}
 				s.Violate("C10", "delete-too-early", "pod %s (grace %s, terminating=%v) deleted directly at %s although the earliest node deadline is %s", pod.Name, own, pod.DeletionTimestamp != nil, at.Format(time.RFC3339), T.Format(time.RFC3339))
 			}
-			if grace != nil && *grace > 1 {
+			// upper bound of the stored deadline: the one of the (attributed) pass that enqueued the pod; the queue only
+			// ever keeps an earlier one (podMinT above is a *lower* bound and must not be used here)
+			if T0 := p.podEnqT[pod.UID]; T0 != nil && grace != nil && *grace > 1 {
 				// the grace period is computed some time before the call is issued; the reconcile's start bounds it
 				implied := t.Start.Add(time.Duration(*grace) * time.Second)
-				if implied.After(T.Add(time.Second)) {
-					s.Violate("C10", "deadline-extended", "pod %s force-deleted with grace %ds, i.e. until %s, later than the earliest deadline %s it was queued under", pod.Name, *grace, implied.Format(time.RFC3339), T.Format(time.RFC3339))
+				if implied.After(T0.Add(time.Second)) {
+					s.Violate("C10", "deadline-extended", "pod %s force-deleted with grace %ds, i.e. until %s, later than the deadline %s it was enqueued under", pod.Name, *grace, implied.Format(time.RFC3339), T0.Format(time.RFC3339))
 				}
 			}
 		}
